@@ -36,7 +36,8 @@ def gen(ch, prof):
         for _ in range(g.rint(2, 9)):
             ops.append({"op": g.weighted([("load_p", 4), ("load", 2), ("promote", 2), ("demote", 3), ("update", 4),
                                           ("complete_id", 1), ("mark_complete", 1), ("mark_canceled", 1),
-                                          ("reload_jobs", 1), ("read", 1), ("sleep", 2), ("rogue_complete_id", 1)]),
+                                          ("reload_jobs", 1), ("read", 1), ("sleep", 2), ("rogue_complete_id", 1),
+                                          ("takeover", 1)]),
                         "a": g.rint(0, 7), "b": g.rint(0, 7), "d": g.pick([0.0, 0.1, 1.0, 3.0])})
         handles.append({"host": hosts[g.rint(0, len(hosts) - 1)], "ops": ops, "start": g.pick([0.0, 0.0, 0.3, 2.0])})
     env = {"lock_behaviour": g.pick(["break_stale", "never_break"]), "stick": g.pick([0.3, 0.5, 0.7, 0.9]),
@@ -138,7 +139,7 @@ class Mon:
             self.bad("unreadable_after_write", "status unreadable after an operation released the lock",
                      f"seq {seq}: {name}: {slot['err']}")
             return
-        writes_cfg = name in ("promote", "demote", "update", "mark_complete", "mark_canceled")
+        writes_cfg = name in ("promote", "demote", "update", "mark_complete", "mark_canceled", "takeover")
         writes_js = name in ("update", "complete_id")
         if name == "load_p":
             want = pre["submitter"] is None
@@ -306,6 +307,43 @@ def runner(scenario, prof, seed, trace=None, then_generate=False, props=()):
                         name = "promote" if c is not None and o["b"] % 2 else "load_p"
                     if name in ("load_p", "promote") and promoted:
                         name = "update"
+                    if name == "takeover":
+                        # an operator, believing the submitter dead (it is only stalled), clears the
+                        # role with a proper versioned write from a fresh handle.  The former holder's
+                        # copy is now out of date although it still believes it is promoted: its next
+                        # write must be rejected.
+                        if promoted or mon.model is None or mon.model.submitter is None:
+                            name = "load"
+                        else:
+                            desc = {"op": "takeover", "h": idx, "host": vp.host}
+                            try:
+                                c2, _ = Cluster.deserialize(out, deserialize_jobs=True)
+                                desc.update(cv=c2.config.version, jv=c2.job_status.version, copy_submitter=c2.config.submitter)
+                                c2.config.submitter = None
+                                w.emit("c10_op", vp, **desc)
+                                c2.serialize("operator takeover")
+                                w.emit("c10_ret", vp, value=None, mem={"cfg": json.loads(c2.config.json())})
+                                w.probe("operator_takeover")
+                                taken_over["any"] = True
+                            except kernel.SimKilled:
+                                raise
+                            except Exception as e:  # noqa: BLE001
+                                w.emit("c10_ret", vp, exc=f"{type(e).__name__}: {e}"[:200])
+                                try:
+                                    lp = os.path.join(out, "cluster_config.json.lock")
+                                    if os.path.getsize(lp) == 0:
+                                        seams.REAL["os.unlink"](lp)
+                                        w.wake_lock_waiters(lp)
+                                except OSError:
+                                    pass
+                            continue
+                    if name == "complete_id" and taken_over["any"]:
+                        # After a takeover a former holder is out of date in the config only; JADE
+                        # versions the two files independently, so its job-status-only write would be
+                        # accepted.  That is a consequence of the operator's intervention (outside the
+                        # protocol), not of the version check: such a handle only attempts writes that
+                        # go through the config check.
+                        name = "update"
                     if name == "rogue_complete_id":
                         # second line of defence: a write attempted with an out-of-date job status
                         # (by a caller that skipped promotion) must still be rejected
@@ -425,6 +463,7 @@ def runner(scenario, prof, seed, trace=None, then_generate=False, props=()):
             return target
 
         started = {"v": False}
+        taken_over = {"any": False}
 
         def quiescent():
             if not started["v"]:
